@@ -4,6 +4,6 @@ Tok(x) == IF x.t = "h" THEN (IF x.i = 1 THEN "h1" ELSE "h2") ELSE x.t
 St == << [i \in 1..Len(cs) |-> Tok(cs[i])], [i \in 1..Len(sc) |-> Tok(sc[i])], cw, crh, crd, sst, csent, ssent,
          Len(cdel), Len(sdel), cfin, sfin, ceof, seof >>
 EmitEdge == PrintT(<<"VFEDGE", ToJson([s |-> St, op |-> op', t |-> St'])>>)
-Conf == [maxsent |-> MaxSent, bufs |-> Bufs]
+Conf == [maxsent |-> MaxSent, bufs |-> Bufs, delays |-> Delays]
 MCInit == Init /\ PrintT(<<"VFINIT", ToJson(St)>>) /\ PrintT(<<"VFCONF", ToJson(Conf)>>)
 =============================================================================
